@@ -428,7 +428,10 @@ class Interp:
             if isinstance(x, BV) and st.cons.pmask:
                 return BV([st.cons.reduce(b) for b in x.bits], x.zero_iff)
             if isinstance(x, Ptr) and st.cons.pmask and x.off.concrete() is None:
-                return Ptr(x.obj, BV([st.cons.reduce(b) for b in x.off.bits]))
+                parts = x.parts
+                if parts is not None:
+                    parts = (parts[0], [(BV([st.cons.reduce(b) for b in ib.bits]), stride) for ib, stride in parts[1]])
+                return Ptr(x.obj, BV([st.cons.reduce(b) for b in x.off.bits]), parts)
             return x
         if k == 'a': return frame['args'][v['n']]
         if k == 'null': return BV.const(0, 64)
